@@ -80,6 +80,12 @@ def schedules_ooo(rng, cs, tier):
     return runs
 
 
+def schedules_ooo_snap(rng, cs, tier):
+    """out-of-order arrival while snapshots exist (a younger snapshot must not be chosen)"""
+    runs = schedules_ooo(rng, cs, tier)
+    return [runs[0]] + [(l, rng.choice([1, 2, 3, 5, 8]), [(rng.choice([0, 1]) if fl == 0 else fl, fs) for fl, fs in st]) for l, _, st in runs[1:]]
+
+
 def schedules_snap(rng, cs, tier, every=None):
     nf = len(cs.files)
     runs = [("oneshot", 100000, [(0, list(range(nf)))])]
@@ -340,6 +346,11 @@ def main(tier, seed, replay=None):
             cs = gen_set(rng, "s%d" % i, REGIMES[i % len(REGIMES)])
             cut_files(rng, cs, "contig")
             snap_sets.append((cs, schedules_snap(rng, cs, tier)))
+        for i in range(n_ooo // 2):
+            cs = gen_set(rng, "p%d" % i, ["udp-only", "udp-reuse", "mixed", "reorder", "tcp-only"][i % 5])
+            cut_files(rng, cs, "contig", nfiles=rng.choice([2, 3, 3, 4]))
+            if len(cs.files) > 1:
+                snap_sets.append((cs, schedules_ooo_snap(rng, cs, tier)))
         for i in range(n_snapreuse):
             # a cut (and a snapshot point) between the last FIN and the trailing ACK of a closed connection
             cs = gen_set(rng, "a%d" % i, "tcp-only")
